@@ -24,6 +24,8 @@ type Case struct {
 	Noise []string `json:"noise,omitempty"` // cancel-foreign | confirm-foreign
 	// FailFirstRollback (ending cancel): the device refuses the first rollback, the client repeats the cancel
 	FailFirstRollback bool `json:"fail_first_rollback,omitempty"`
+	// AfterSync (NETCONF closed loop, Hist.GNMI = "nc:..."): the sync has stored what T changed before the cancel
+	AfterSync bool `json:"after_sync,omitempty"`
 }
 
 var prop = vlib.Prop[*Case]{
@@ -32,6 +34,15 @@ var prop = vlib.Prop[*Case]{
 		"oracle = snapshot round trip: INTENDED dump (paths, owners, priorities, values) after the rollback equals the dump before T, TransactionCancel returns nil, and every path T touched (its new content and the stored content of the intents it names) has on the recording device the value or absence it had before T; " +
 		"non-trivial = T modifies >=1 pre-existing intent and changes the device or the store; distinct = distinct case JSON",
 	Gen: func(t *rapid.T) *Case {
+		if os.Getenv("VERIF_C05_LOOP") == "nc" {
+			// NETCONF closed loop (vlib/ncloop.go): the rollback is computed against a running store the real sync built
+			// from the device's get-config replies
+			c := &Case{Hist: vlib.GenNCLoop(t)}
+			c.T = vlib.GenStep(t, vlib.HistGenOpts{Universe: vlib.UniNC, WithInit: true, AllowOrphan: true})
+			c.Ending = rapid.SampledFrom([]string{"cancel", "cancel", "cancel", "timeout"}).Draw(t, "ending")
+			c.AfterSync = rapid.Bool().Draw(t, "after-sync")
+			return c
+		}
 		o := vlib.HistGenOpts{Universe: vlib.UniPlainNA, MinSteps: 0, MaxSteps: 6, WithInit: true, AllowOrphan: true}
 		c := &Case{Hist: vlib.GenHistCase(t, o), T: vlib.GenStep(t, o)}
 		c.Ending = rapid.SampledFrom([]string{"cancel", "cancel", "cancel", "timeout"}).Draw(t, "ending")
@@ -50,6 +61,9 @@ func harnessErr(err error) {
 }
 
 func Exec(c *Case) (nontrivial bool, labels []string, fail *vlib.Failure) {
+	if strings.HasPrefix(c.Hist.GNMI, "nc:") {
+		return vlib.ExecNCLoop(c.Hist, "C05", false, &vlib.LoopRollback{T: c.T, Ending: c.Ending, AfterSync: c.AfterSync})
+	}
 	st := vlib.GetStats("C05")
 	ctx := context.Background()
 	env := vlib.MustEnv()
